@@ -182,21 +182,153 @@ def entails_ge0(facts: Facts, l: Lin, strict: bool = False, integer: bool = True
     return _fm_infeasible(facts.ge0 + [-l - Lin.c(Fraction(1, 10**9))], facts.ints)
 
 
+def _defs_ok(m: dict, defs: list[tuple]) -> bool:
+    """Exact (possibly non-linear) definitions of auxiliary symbols, checked on a candidate model."""
+    for (nm, kind, a, b) in defs:
+        if m.get(nm) is None or not (a.syms() | b.syms()) <= set(m):
+            continue
+        x, y = a.eval(m), b.eval(m)
+        if kind == "min" and m[nm] != min(x, y):
+            return False
+        if kind == "max" and m[nm] != max(x, y):
+            return False
+        if kind == "mul" and m[nm] != x * y:
+            return False
+        if kind == "div" and (y == 0 or m[nm] != x / y):
+            return False
+    return True
+
+
+def _fm_model(cons: list[Lin], ints: set[str]) -> Optional[dict[str, Fraction]]:
+    """A model of {c >= 0} by Fourier-Motzkin elimination and back-substitution (integers preferred)."""
+    from math import ceil, floor
+    syms = sorted({s for c in cons for s in c.syms()})
+    stages = []
+    cur = [_tighten(c, ints) for c in cons]
+    for s in syms:
+        pos = [c for c in cur if c.coef.get(s, 0) > 0]
+        neg = [c for c in cur if c.coef.get(s, 0) < 0]
+        rest = [c for c in cur if c.coef.get(s, 0) == 0]
+        stages.append((s, pos, neg))
+        new = list(rest)
+        for p in pos:
+            for n in neg:
+                comb = p.scale(-n.coef[s]) + n.scale(p.coef[s])
+                comb.coef.pop(s, None)
+                new.append(_tighten(comb, ints))
+        seen, cur = set(), []
+        for c in new:
+            if c.is_const():
+                if c.const < 0:
+                    return None
+            elif c not in seen:
+                seen.add(c)
+                cur.append(c)
+        if len(cur) > 3000:
+            return None
+    model: dict[str, Fraction] = {}
+    for s, pos, neg in reversed(stages):
+        lo_b, hi_b = None, None
+        for c in pos:   # k*s + rest >= 0  ->  s >= -rest/k
+            k = c.coef[s]
+            rest = Lin({a: b for a, b in c.coef.items() if a != s}, c.const)
+            if not rest.syms() <= set(model):
+                continue
+            v = -rest.eval(model) / k
+            lo_b = v if lo_b is None else max(lo_b, v)
+        for c in neg:
+            k = c.coef[s]
+            rest = Lin({a: b for a, b in c.coef.items() if a != s}, c.const)
+            if not rest.syms() <= set(model):
+                continue
+            v = rest.eval(model) / (-k)
+            hi_b = v if hi_b is None else min(hi_b, v)
+        if lo_b is not None and hi_b is not None and lo_b > hi_b:
+            return None
+        if lo_b is None and hi_b is None:
+            val = Fraction(0)
+        elif lo_b is None:
+            val = min(Fraction(0), Fraction(floor(hi_b))) if s in ints else min(Fraction(0), hi_b)
+        elif hi_b is None:
+            val = max(Fraction(0), Fraction(ceil(lo_b))) if s in ints else max(Fraction(0), lo_b)
+        else:
+            if s in ints:
+                cands = [Fraction(ceil(lo_b)), Fraction(floor(hi_b))]
+                val = next((v for v in cands if lo_b <= v <= hi_b), lo_b)
+            else:
+                val = lo_b
+        model[s] = val
+    return model
+
+
 def find_model(facts: Facts, violated: Lin, lo: int = -3, hi: int = 9, limit: int = 200000) -> Optional[dict[str, int]]:
+    m = _find_model_small(facts, violated, lo, hi, limit)
+    if m is not None:
+        return m
+    # larger witnesses (e.g. 'width > 1000'): elimination + back-substitution, then verified exactly
+    rel_facts = _relevant(facts, violated)
+    integral = all(s_ in facts.ints for s_ in violated.syms())
+    goal = -violated - (Lin.c(1) if integral else Lin.c(Fraction(1, 1000)))
+    fm = _fm_model(rel_facts.ge0 + [goal], facts.ints)
+    if fm is None:
+        return None
+    if any(s_ in facts.ints and v.denominator != 1 for s_, v in fm.items()):
+        return None
+    if violated.eval({**{k: Fraction(0) for k in violated.syms()}, **fm}) < 0 and all(
+            c.eval(fm) >= 0 for c in rel_facts.ge0 if c.syms() <= set(fm)) and _defs_ok(fm, rel_facts.defs):
+        return {k: (int(v) if v.denominator == 1 else float(v)) for k, v in fm.items()}
+    return None
+
+
+def _relevant(facts: Facts, violated: Lin) -> Facts:
+    rel = set(violated.syms())
+    changed = True
+    while changed:
+        changed = False
+        for c in facts.ge0:
+            cs = c.syms()
+            if cs & rel and not cs <= rel:
+                rel |= cs
+                changed = True
+        for d in facts.defs:
+            ds = d[2].syms() | d[3].syms() | {d[0]}
+            if ds & rel and not ds <= rel:
+                rel |= ds
+                changed = True
+    return Facts([c for c in facts.ge0 if c.syms() <= rel and c.syms()], facts.exact, facts.ints, [], 0,
+                 [d for d in facts.defs if ({d[0]} | d[2].syms() | d[3].syms()) <= rel])
+
+
+def _find_model_small(facts: Facts, violated: Lin, lo: int = -3, hi: int = 9, limit: int = 200000) -> Optional[dict[str, int]]:
     """Small integer assignment satisfying every fact with ``violated < 0`` (a concrete witness)."""
-    syms = sorted({s for c in facts.ge0 for s in c.syms()} | violated.syms()
-                  | {x for d in facts.defs for x in (d[2].syms() | d[3].syms() | {d[0]})})
+    # only the facts connected (through shared symbols) to the violated form matter for a witness
+    rel = set(violated.syms())
+    changed = True
+    while changed:
+        changed = False
+        for c in facts.ge0:
+            cs = c.syms()
+            if cs & rel and not cs <= rel:
+                rel |= cs
+                changed = True
+        for d in facts.defs:
+            ds = d[2].syms() | d[3].syms() | {d[0]}
+            if ds & rel and not ds <= rel:
+                rel |= ds
+                changed = True
+    facts = Facts([c for c in facts.ge0 if c.syms() <= rel and c.syms()], facts.exact, facts.ints, [], 0,
+                  [d for d in facts.defs if ({d[0]} | d[2].syms() | d[3].syms()) <= rel])
+    syms = sorted(rel)
     if len(syms) > 7:
         return None
     n = 0
-    for vals in itertools.product(range(lo, hi + 1), repeat=len(syms)):
+    order = sorted(range(lo, hi + 1), key=lambda v: (abs(v), v < 0))
+    for vals in itertools.product(order, repeat=len(syms)):
         n += 1
         if n > limit:
             return None
         m = dict(zip(syms, map(Fraction, vals)))
-        if violated.eval(m) < 0 and all(c.eval(m) >= 0 for c in facts.ge0) and all(
-                m.get(nm) is None or m[nm] == (min if kind == "min" else max)(a.eval(m), b.eval(m))
-                for (nm, kind, a, b) in facts.defs if a.syms() <= set(m) and b.syms() <= set(m)):
+        if violated.eval(m) < 0 and all(c.eval(m) >= 0 for c in facts.ge0) and _defs_ok(m, facts.defs):
             return {k: int(v) for k, v in m.items()}
     return None
 
@@ -284,11 +416,13 @@ class Env:
         self.facts = facts or Facts()
         self.int_attrs = int_attrs
         self.hooks: list[Callable[["Env", ast.Call], Any]] = []  # call models, tried in order
+        self.sub_hooks: list[Callable[["Env", ast.Subscript], Any]] = []  # subscript models
 
     def copy(self) -> "Env":
         e = Env(self.facts.copy(), self.int_attrs)
         e.vars = dict(self.vars)
         e.hooks = list(self.hooks)
+        e.sub_hooks = list(self.sub_hooks)
         return e
 
     def symbol(self, path: str, integer: bool = True) -> Lin:
@@ -351,7 +485,14 @@ def evaluate(env: Env, e: ast.AST) -> Any:
                     return b.scale(a.const)
                 if b.is_const():
                     return a.scale(b.const)
-                r = f.fresh("prod", exact=False, integer=False)
+                r = f.fresh("prod", exact=f.is_exact(a) and f.is_exact(b), integer=False)
+                f.defs.append((next(iter(r.syms())), "mul", a, b))
+                for x, y in ((a, b), (b, a)):
+                    # x in [0,1], y >= 0  =>  0 <= x*y <= y
+                    if entails_ge0(f, x) and entails_ge0(f, Lin.c(1) - x) and entails_ge0(f, y):
+                        f.add_ge(r, Lin.c(0))
+                        f.add_le(r, y)
+                        break
                 return r
             if isinstance(e.op, ast.FloorDiv) and b.is_const() and b.const > 0 and b.const.denominator == 1:
                 # q = a // k  with  k*q <= a <= k*q + (k-1)   (exact relation, q determined by a)
@@ -368,16 +509,43 @@ def evaluate(env: Env, e: ast.AST) -> Any:
             if isinstance(e.op, ast.Mod):
                 # r = a % m in [0, m-1] for m > 0; exact only if a ranges over a complete residue system
                 if entails_ge0(f, b, strict=True):
-                    r = f.fresh("mod", exact=False, integer=True)
+                    if entails_ge0(f, a) and entails_ge0(f, b - a - Lin.c(1)):
+                        return a  # already a residue
+                    # A value of unknown magnitude (a gene, a power, ...) reduced modulo m is taken to reach every
+                    # residue in [0, m-1] (documented assumption: that is what the code relies on); an operand with
+                    # known exact bounds wider than m keeps an inexact result.
+                    free = any((not f.exact.get(s_, True)) or s_.startswith("gene#") for s_ in a.syms())
+                    r = f.fresh("mod", exact=free, integer=True)
                     f.add_ge(r, Lin.c(0))
                     f.add_le(r, b - Lin.c(1))
                     return r
-                return Opaque(f"modulus {b!r} not provably positive")
+                m0 = find_model(f, b - Lin.c(1)) if f.is_exact(b) else None  # b <= 0 attainable?
+                f.notes.append(("bad-modulus", repr(b), m0))
+                return Opaque(f"modulus {b!r} not provably positive" + (f" (it is {b.eval({k: Fraction(v) for k, v in m0.items()})} at {m0})" if m0 else ""))
             if isinstance(e.op, ast.Div):
                 if b.is_const() and b.const != 0:
                     return a.scale(1 / b.const)
-                r = f.fresh("quot", exact=False, integer=False)
+                if not (entails_ge0(f, b, strict=True) or entails_ge0(f, -b, strict=True)):
+                    m0 = find_model(f, b) if f.is_exact(b) else None          # b <= -1 ?
+                    z = None
+                    if f.is_exact(b):
+                        fz = f.copy()
+                        fz.ge0 += [b, -b]                                        # b == 0 feasible?
+                        z = find_model(fz, Lin.c(-1))
+                    if z is not None:
+                        f.notes.append(("bad-divisor", repr(b), z))
+                        return Opaque(f"divisor {b!r} can be 0 at {z}")
+                r = f.fresh("quot", exact=f.is_exact(a) and f.is_exact(b), integer=False)
+                f.defs.append((next(iter(r.syms())), "div", a, b))
+                # a >= 0, b >= 1  =>  0 <= a/b <= a
+                if entails_ge0(f, a) and entails_ge0(f, b - Lin.c(1)):
+                    f.add_ge(r, Lin.c(0))
+                    f.add_le(r, a)
                 return r
+        if isinstance(a, Opaque):
+            return a
+        if isinstance(b, Opaque):
+            return b
         if isinstance(e.op, ast.Add) and isinstance(a, SeqV) and isinstance(b, SeqV) \
                 and isinstance(a.length, Lin) and isinstance(b.length, Lin):
             return SeqV(a.length + b.length, a.elem, a.kind)
@@ -395,6 +563,10 @@ def evaluate(env: Env, e: ast.AST) -> Any:
     if isinstance(e, ast.Tuple):
         return Tup([evaluate(env, x) for x in e.elts])
     if isinstance(e, ast.Subscript):
+        for h in env.sub_hooks:
+            r = h(env, e)
+            if r is not None:
+                return r
         v = evaluate(env, e.value)
         if isinstance(v, Tup) and isinstance(e.slice, ast.Constant) and isinstance(e.slice.value, int):
             try:
@@ -425,6 +597,8 @@ def evaluate(env: Env, e: ast.AST) -> Any:
             if isinstance(v, SeqV):
                 return v.length
             p = attr_path(e.args[0])
+            if p is not None and f"len({p})" in env.vars:
+                return env.vars[f"len({p})"]
             if p is not None:
                 s = env.symbol(f"len({p})")
                 f.add_ge(s, Lin.c(0))
@@ -536,4 +710,111 @@ def assume(env: Env, test: ast.AST, polarity: bool) -> None:
                 elif t is ast.Eq:
                     f.add_le(left, right)
                     f.add_ge(left, right)
+                elif t is ast.NotEq and integral:
+                    if entails_ge0(f, right - left):
+                        f.add_le(left + Lin.c(1), right)
+                    elif entails_ge0(f, left - right):
+                        f.add_ge(left, right + Lin.c(1))
             left = right
+
+
+# ----------------------------------------------------------------------------- function interpreter
+@dataclass
+class Outcome:
+    env: Env
+    value: Any            # abstract return value (None when the path falls off the end)
+    conds: list[str]
+    kind: str = "return"  # 'return' | 'raise' | 'fallthrough' | 'unsupported'
+    node: Any = None
+
+
+def interp(body: list[ast.stmt], env: Env, max_paths: int = 128) -> list[Outcome]:
+    """Interpret a loop-free statement list; forks on if-statements and on if-expressions whose test is unknown
+    (when they are the whole right-hand side of an assignment / return).  Loops and other unsupported statements
+    end the path with kind 'unsupported' (the rule decides what to do with it)."""
+    out: list[Outcome] = []
+
+    def fork_value(e: Env, conds: list[str], expr: ast.AST):
+        """yield (env, conds, value) alternatives for an expression, splitting a top-level unknown IfExp"""
+        if isinstance(expr, ast.IfExp):
+            t = truth(e, expr.test)
+            if t.v is None:
+                a, b = e.copy(), e.copy()
+                assume(a, expr.test, True)
+                assume(b, expr.test, False)
+                from .frontend import norm as _n
+                yield from fork_value(a, conds + [_n(expr.test)[:40]], expr.body)
+                yield from fork_value(b, conds + ["not " + _n(expr.test)[:40]], expr.orelse)
+                return
+        yield e, conds, evaluate(e, expr)
+
+    def store(e: Env, target: ast.AST, value: Any) -> None:
+        if isinstance(target, ast.Name):
+            e.vars[target.id] = value
+        elif isinstance(target, ast.Attribute):
+            pth = attr_path(target)
+            if pth:
+                e.vars[pth] = value
+        elif isinstance(target, ast.Tuple) and isinstance(value, Tup) and len(value.items) == len(target.elts):
+            for t_, v_ in zip(target.elts, value.items):
+                store(e, t_, v_)
+        elif isinstance(target, ast.Tuple):
+            for t_ in target.elts:
+                store(e, t_, Opaque("unpacked"))
+
+    def go(stmts: list[ast.stmt], e: Env, conds: list[str]):
+        if len(out) > max_paths:
+            return
+        if not stmts:
+            out.append(Outcome(e, None, conds, "fallthrough"))
+            return
+        st, rest = stmts[0], stmts[1:]
+        from .frontend import norm as _n
+        if isinstance(st, ast.Assign) and len(st.targets) == 1:
+            for e2, c2, v in fork_value(e, conds, st.value):
+                store(e2, st.targets[0], v)
+                go(rest, e2, c2)
+        elif isinstance(st, ast.AnnAssign) and st.value is not None:
+            for e2, c2, v in fork_value(e, conds, st.value):
+                store(e2, st.target, v)
+                go(rest, e2, c2)
+        elif isinstance(st, ast.AugAssign):
+            cur = evaluate(e, st.target)
+            v = evaluate(e, st.value)
+            if isinstance(cur, Lin) and isinstance(v, Lin) and isinstance(st.op, (ast.Add, ast.Sub)):
+                store(e, st.target, cur + v if isinstance(st.op, ast.Add) else cur - v)
+            else:
+                store(e, st.target, Opaque("augassign"))
+            go(rest, e, conds)
+        elif isinstance(st, ast.Return):
+            if st.value is None:
+                out.append(Outcome(e, None, conds, "return", st))
+            else:
+                for e2, c2, v in fork_value(e, conds, st.value):
+                    out.append(Outcome(e2, v, c2, "return", st))
+        elif isinstance(st, ast.Raise):
+            out.append(Outcome(e, None, conds, "raise", st))
+        elif isinstance(st, ast.If):
+            t = truth(e, st.test)
+            if t.v is not False:
+                a = e.copy()
+                assume(a, st.test, True)
+                go(list(st.body) + rest, a, conds + [_n(st.test)[:40]])
+            if t.v is not True:
+                b = e.copy()
+                assume(b, st.test, False)
+                go(list(st.orelse) + rest, b, conds + ["not " + _n(st.test)[:40]])
+        elif isinstance(st, ast.Assert):
+            assume(e, st.test, True)
+            go(rest, e, conds)
+        elif isinstance(st, ast.Expr):
+            if isinstance(st.value, ast.Call):
+                evaluate(e, st.value)  # for call-model side effects (precondition obligations)
+            go(rest, e, conds)
+        elif isinstance(st, (ast.Pass, ast.Import, ast.ImportFrom, ast.FunctionDef, ast.Global, ast.Nonlocal)):
+            go(rest, e, conds)
+        else:
+            out.append(Outcome(e, None, conds, "unsupported", st))
+
+    go(list(body), env, [])
+    return out
